@@ -36,7 +36,7 @@ where G: GraphRef + NodeIndexable + NodeCount + IntoNodeIdentifiers {
     v
 }
 
-fn q_match<G>(g: G, q: &GOp) -> Option<Vec<String>>
+pub fn q_match<G>(g: G, q: &GOp) -> Option<Vec<String>>
 where G: GraphRef + Visitable + NodeIndexable + IntoNodeIdentifiers + IntoEdges + IntoNeighbors + NodeCount, G::NodeId: Eq + Hash, G::EdgeId: Eq + Hash {
     let bound = g.node_bound();
     Some(match q.0.as_str() {
@@ -46,7 +46,7 @@ where G: GraphRef + Visitable + NodeIndexable + IntoNodeIdentifiers + IntoEdges 
     })
 }
 
-fn q_flow<G>(g: G, q: &GOp) -> Option<Vec<String>>
+pub fn q_flow<G>(g: G, q: &GOp) -> Option<Vec<String>>
 where G: GraphRef + NodeCount + EdgeCount + IntoEdgesDirected + EdgeIndexable + NodeIndexable + DataMap + Visitable + Data<EdgeWeight = u64> {
     if q.0 != "ford_fulkerson" { return None; }
     let (total, flows) = algo::ford_fulkerson(g, NodeIndexable::from_index(&g, q.1[0] as usize), NodeIndexable::from_index(&g, q.1[1] as usize));
